@@ -114,17 +114,26 @@ without the F1 repair. All runs: exit 1 with VIOLATION lines. mainchain/blockcha
   pool-refund-short                   refundGas: gp.AddGas(gas - gas/64)                              pass(none)  caught  oracle=gas-pool-delta on every applied class
   intrinsic-gas-check-dropped         TransitionDb: ErrIntrinsicGas check removed                     pass(none)  caught  oracle=invalid-tx-rejected + gas-used-le-limit
   buygas-balance-check-dead           buyGas: balance < gas*price test made unsatisfiable             pass(none)  caught  oracle=invalid-tx-rejected, conservation, sender-pays-value-plus-fee, sender-nonce-plus-one
+  seeded-f-create2-mints-gas          kvm opCreate2: UseGas(gas - gas/64) while Create2 still gets    pass        caught  path=ApplyTransaction tx=call-factory/ok oracle={exact-gas-figure (any gas limit), frame-gas-not-minted
+                                      the full gas: every CREATE2 mints gas/64                                            (any limit), gas-used-le-limit, gas-pool-delta, sender-pays-value-plus-fee, conservation (8M, 20M)}
+                                      (MISSED before the factory family existed: the alphabet had CREATE but no CREATE2 opcode anywhere, and no gas limit above 5*10^6)
   (not a mutant) F1 repair            commitBlock restores the pool / TransitionDb returns the gas    -           exit 0  none
 
 9 of 9 mutants survive the repository's own tests of the touched package; every one is caught by the quick tier.
 
 Signature format
-    C09|path=ApplyTransaction|tx=<eoa|fresh-empty|self|call-contract|create>/<ok|failed>|oracle=<id>
+    C09|path=ApplyTransaction|tx=<eoa|fresh-empty|self|call-contract|create|call-factory>/<ok|failed>|oracle=<id>
     C09|path=ApplyTransaction|reject=<class>|oracle=<state-unchanged|gas-pool-unchanged|state-unchanged-after-revert|rejected-reports-nothing>
     C09|path=commitBlock|block=<empty|executed-only|with-rejected>|oracle=<id>
     C09|path=commitBlock|reject=<class of the first rejected tx>|oracle=<gas-pool-restored|state-as-if-absent>
   class in {nonce-too-low, nonce-too-high, insufficient-funds-for-gas, block-gas-exhausted, intrinsic-gas,
   insufficient-funds-for-transfer}. Each signature's replay case is the smallest failing point in enumeration order.
+
+Observation while building the exact gas figures (not a C09 finding; gas-schedule conformance is C10's subject)
+  kvm/gas.go: gasCreate2 = pureMemoryGascost, i.e. CREATE2 does not charge EIP-1014's 6 gas per hashed init code word, and
+  opCreate2 forwards ALL remaining gas to the init code where CREATE (and upstream CREATE2) keep one 64th back; the
+  pre-Galaxias interpreter charges the constant price of every opcode with a dynamic part twice. The exact figures take
+  the chain's schedule as it is (assumption A7); value and gas accounting stay consistent under it.
 
 Not covered from the DESIGN.md section
   - the refund bound is observed through the KVM tracer (gas used before refund = intrinsic + CaptureEnd gas) instead of an
